@@ -57,6 +57,7 @@ Section Routing.
     match p with
     | PSetCache k _ ct | PGetPers k ct | PNxPers k _ ct | PNxUndo k ct
     | PGetRecheck k ct | PGetPersL k ct | PGetFill k ct _ | PSetInval k ct => ct = cache_tier_for_key T c k /\ two_tier T c k = true
+    | PExpSet k ct _ => ct = cache_tier_for_key T c k
     | PDelPers k _ | PExPers k => two_tier T c k = true
     | PIncrSet _ _ => False
     | PIdle | PSetStart _ _ | PBegin => True
@@ -211,6 +212,14 @@ Section Routing.
     - apply finish_ok, good_wr; assumption.
   Qed.
 
+  Lemma setexp_start_ok cl w k f : good w -> ok2 (setexp_start T c cl w k f).
+  Proof.
+    intros Hg. unfold setexp_start. rewrite Hfi. pose proof (allowed_cache k) as Ha.
+    destruct f; [apply finish_ok, good_acc; assumption|].
+    destruct (tget w (cache_tier_for_key T c k) k); [|apply finish_ok, good_acc; assumption].
+    destruct (fix_wb c && negb (exp_locked c) && negb (held cl)); apply set_pc_ok; try (apply good_acc; assumption); cbn; reflexivity.
+  Qed.
+
   Lemma pop_fault_pc cl : cpc (snd (pop_fault cl)) = cpc cl.
   Proof. unfold pop_fault. destruct (faults cl); reflexivity. Qed.
 
@@ -223,7 +232,7 @@ Section Routing.
       destruct (pop_fault cl) as [f cl1].
       destruct o; cbn [op_start];
         first [apply set_start_ok | apply get_start_ok | apply del_start_ok | apply exists_start_ok
-              | apply incr_start_ok | apply setnx_start_ok]; exact Hg.
+              | apply incr_start_ok | apply setnx_start_ok | apply setexp_start_ok]; exact Hg.
     - destruct Hp as [-> H2]. destruct (pop_fault cl) as [f cl1].
       destruct f; [destruct (fix_cwf c); [apply set_pc_ok; [apply good_acc; [exact Hg|apply allowed_cache]|split; [reflexivity|exact H2]]|]|];
         apply finish_ok; [apply good_acc|apply good_wr]; first [exact Hg | apply allowed_cache].
@@ -244,7 +253,7 @@ Section Routing.
     - (* PBegin *) destruct (pop_fault cl) as [f cl1]. destruct (cur cl1) as [o|]; [|split; [cbn; rewrite Epc; exact I|exact Hg]].
       destruct o; cbn [op_start];
         first [apply set_start_ok | apply get_start_ok | apply del_start_ok | apply exists_start_ok
-              | apply incr_start_ok | apply setnx_start_ok]; exact Hg.
+              | apply incr_start_ok | apply setnx_start_ok | apply setexp_start_ok]; exact Hg.
     - (* PGetRecheck *) destruct Hp as [-> H2]. destruct (pop_fault cl) as [f cl1].
       destruct (if f then None else tget w (cache_tier_for_key T c k) k).
       + apply get_done_ok, good_acc; [exact Hg|apply allowed_cache].
@@ -255,6 +264,8 @@ Section Routing.
     - (* PGetFill *) destruct Hp as [-> H2]. destruct (pop_fault cl) as [f cl1]. apply get_done_ok.
       destruct f; [apply good_acc|apply good_wr]; first [exact Hg | apply allowed_cache].
     - (* PSetInval *) destruct Hp as [-> H2]. destruct (pop_fault cl) as [f cl1].
+      destruct f; apply finish_ok; [apply good_acc|apply good_wr]; first [exact Hg | apply allowed_cache].
+    - (* PExpSet *) subst ct. destruct (pop_fault cl) as [f cl1].
       destruct f; apply finish_ok; [apply good_acc|apply good_wr]; first [exact Hg | apply allowed_cache].
   Qed.
 
